@@ -147,6 +147,11 @@ impl Prop for C02 {
                 }
             })
         }));
+        v.push(Scope::new("escaped-quotes", "quoted strings containing backslash-quote escapes and other backslashes: the text element must hold the characters between the outer quotes verbatim", |f| {
+            for inner in ["say \\\"hi\\\"", "\\\"", "a\\\"b", "x\\y", "\\\"\\\"", "<\\\">", "一\\\"二", "end\\\\"] {
+                f(Case::snx("", vec![6, 0], vec![inner.to_string()]));
+            }
+        }));
         v.push(Scope::new("switches", "every markup string up to length 2 x {plain, legend-decl} sinks x 8 include_* combinations x {pretty, compressed}", move |f| {
             let a = sigma_markup();
             enumr::strings_upto(&a, 2, &mut |s| {
@@ -159,6 +164,33 @@ impl Prop for C02 {
         v
     }
     fn check(&self, _scope: &str, case: &Case, cx: &mut Cx) {
+        if case.n[0] == 6 {
+            // "…\"…" : one quoted segment, content verbatim (the backslashes are part of the text)
+            let inner = &case.x[0];
+            let input = format!("\"{}\" |", inner);
+            let out = match cx.conv(&input, &Sett::bare()) {
+                Some(o) => o,
+                None => return,
+            };
+            cx.compared();
+            let doc = match cx.xml_parse(&out) {
+                Ok(d) => d,
+                Err(e) => {
+                    cx.fail("not-well-formed", format!("escaped quotes: {} at char {}", e.msg, e.pos));
+                    return;
+                }
+            };
+            let mut texts: Vec<&Element> = vec![];
+            all_texts(&doc.root, &mut texts);
+            let got: Vec<String> = texts.iter().map(|t| t.text()).collect();
+            // a trailing backslash before the closing quote escapes it: then the segment is not closed and anything goes
+            let closed = !inner.ends_with('\\');
+            if closed && !got.iter().any(|g| g == inner) {
+                cx.fail("text-roundtrip", format!("quoted segment {:?} does not come back verbatim: texts {:?}", inner, got));
+            }
+            cx.outcome(&("escaped-quotes", inner.len()));
+            return;
+        }
         let sink = case.n[0] as usize;
         let payload = &case.x[0];
         let input = sink_input(sink, payload);
@@ -179,7 +211,7 @@ impl Prop for C02 {
                     }
                 }
             }
-            for e in [Entry::Compressed, Entry::Pretty, Entry::ToSvg] {
+            for e in [Entry::Compressed, Entry::Pretty, Entry::ToSvg, Entry::OverrideSize(320.0, 200.0)] {
                 if let Some(o) = cx.conv_entry(&input, &Sett::default_(), e) {
                     cx.compared();
                     match cx.xml_parse(&o) {
